@@ -416,7 +416,7 @@ JsonStrVariants(cls) ==
     [] cls = "b64inner" -> {"empty", "short", "badchar", "nonascii"}
     [] cls \in {"method", "anystr"} -> {"empty", "unknown"}
     [] cls = "rpcver"  -> {"empty", "unknown"}
-    [] cls \in {"optstr"} -> {"empty", "nonascii"}
+    [] cls \in {"optstr"} -> {"empty", "nonascii", "spaddr"}    \* spaddr: a well-formed slatepack address (a reply destination?)
     [] OTHER -> {}
 JsonNumVariants(cls) ==
   CASE cls \in {"numstr", "u64", "feenum", "optnumstr"} -> {"neg", "float", "big", "max", "zero", "asstr", "strbad"}
@@ -521,7 +521,9 @@ LenEff(ly, Ls, j, mu, sh) ==
             [] mu.a = "inc" -> E("innerany")
             [] mu.a = "rem" -> E("innererr")  \* the metadata takes the whole plaintext (trailing bytes are not looked at): empty slate
             [] OTHER        -> E("err"))     \* meta_len + 4 beyond the plaintext (max, rem1, tot): "Invalid encrypted metadata length"
-    [] lf.a = "len" /\ \E i \in DOMAIN Ls : Ls[i].n = lf.of /\ Ls[i].a = "bech32" -> E("err")   \* bech32 text cut / extended / empty
+    [] lf.a = "len" /\ \E i \in DOMAIN Ls : Ls[i].n = lf.of /\ Ls[i].a = "bech32" ->
+         \* bech32 text cut / extended / empty; an end-of-input value does not fit the one-byte prefix and wraps: no prediction
+         IF mu.a \in {"rem", "rem1", "tot"} THEN Havoc_Misaligned ELSE E("err")
     [] lf.a = "len" /\ \E i \in DOMAIN Ls : Ls[i].n = lf.of /\ Ls[i].a = "raw" ->              \* RangeProof::read: min(len, MAX_PROOF_SIZE)
          (CASE mu.a \in {"inc", "max"} -> E("cont") [] OTHER -> Havoc_Misaligned)
     [] OTHER -> Havoc_Semantics
